@@ -755,3 +755,317 @@ NORMALS = Stream('guards_normals', 'h_guards', 'guards', gen_normals, oracle=ora
                  nontrivial=_nontriv)
 POLYLINE = Stream('guards_polyline', 'h_guards', 'guards', gen_polyline, oracle=oracle_polyline, whitebox=WB,
                   nontrivial=_nontriv)
+
+
+# ---------------------------------------------------------------------------------------------- real smoothers
+def gen_smooth(rng, tier):
+    """validate stream: the REAL ref_smooth_no_geom_tri_improve / _edge_improve run on the centre of a star /
+    the middle of a boundary polyline; the harness reports whether the vertex moved, the model's guard chain
+    says whether it is frozen (qua/pyr/pri/hex present, edg present, >1 face id, not flat)."""
+    ops = []
+    for _ in range(N(tier, 400)):
+        ids = rng.choice(['one', 'one', 'one', 'ridge', 'corner'])
+        theta = angle(rng) if rng.random() < 0.5 else 0.0
+        pts, tris, m, half = star(rng, theta=theta, ids=ids)
+        # off-centre so that an unguarded smoother has a reason to move it
+        pts[0] = [rng.uniform(-0.35, 0.35), 0.0 if theta else rng.uniform(-0.35, 0.35), 0.0]
+        cells = list(tris)
+        t = rng.random()
+        if t < 0.15:
+            cells.append(['edg', 1, 0, 11])
+            cells.append(['edg', 0, 1 + half, 11])
+        elif t < 0.35:
+            c, sz = mixed_neighbour(rng, len(pts), 0, rng.randint(1, m))
+            if 0 not in c[1:1 + sz]:
+                c[1] = 0
+            cells.append(c)
+            pts += [[rng.uniform(-1, 1), rng.uniform(-1, 1), -rng.uniform(0.5, 1.5)] for _ in range(sz)]
+        if rng.random() < 0.3:
+            rng.shuffle(cells)
+        ops.append('vsm tri ' + fmt_op('x', [0, 0], 0.0, place(rng, pts, mode=rng.choice([0.1, 0.5, 0.9])), cells).split(' ', 1)[1])
+    for _ in range(N(tier, 300)):
+        # 2-D: boundary polyline 0-1-2 on y = 0 (node 1 off-centre), triangles below, planar z = 0
+        L0, L2 = rng.uniform(0.3, 1.5), rng.uniform(0.3, 1.5)
+        kink = 0.0 if rng.random() < 0.6 else math.tan(angle(rng)) * min(L0, L2)
+        pts = [[-L0, 0.0, 0.0], [0.0, kink, 0.0], [L2, 0.0, 0.0], [-0.5 * L0, -0.8, 0.0], [0.5 * L2, -0.8, 0.0]]
+        cells = [['edg', 0, 1, 1], ['edg', 1, 2, rng.choice([1, 1, 2])],
+                 ['tri', 0, 3, 1, 1], ['tri', 3, 4, 1, 1], ['tri', 4, 2, 1, 1]]
+        t = rng.random()
+        if t < 0.15:
+            pts.append([0.0, 1.0, 0.0])
+            cells.append(['qua', 1, 2, 5, 0, 3] if rng.random() < 0.5 else ['edg', 1, 5, 4])
+        elif t < 0.25:
+            cells = cells[2:]  # no edg at all: interior node for the edge smoother
+        if rng.random() < 0.3:
+            rng.shuffle(cells)
+        ang = rng.uniform(0, 2 * math.pi) if rng.random() < 0.5 else 0.0
+        cs, sn = math.cos(ang), math.sin(ang)
+        pts = [[cs * p[0] - sn * p[1], sn * p[0] + cs * p[1], 0.0] for p in pts]
+        ops.append('vsm edg ' + fmt_op('x', [1, 0], 0.0, pts, cells).split(' ', 1)[1])
+    return ops
+
+
+def oracle_smooth(ops, impl):
+    """property stated directly: a vertex whose neighbourhood has a non-simplex cell, an edg (tri smoother), or
+    two patch ids is not moved"""
+    bad = []
+    for i, (o, r) in enumerate(zip(ops, impl)):
+        w = o.split()
+        d = parse_op('x ' + ' '.join(w[2:]))
+        rw = r.split()
+        if d is None or rw[0] != 'sm':
+            continue
+        node = d['i'][0]
+        moved = rw[2] == '1'
+        C = d['cells']
+        touch = lambda k: any(node in c[0] for c in C[k])
+        if moved and any(touch(k) for k in ('qua', 'pyr', 'pri', 'hex')):
+            bad.append((i, 'boundary smoothing moved a vertex of a non-simplex cell'))
+        if moved and w[1] == 'tri' and touch('edg'):
+            bad.append((i, 'surface smoothing moved a vertex of an edg (ridge) cell'))
+        if moved and w[1] == 'tri' and len({c[1] for c in C['tri'] if node in c[0]}) > 1:
+            bad.append((i, 'surface smoothing moved a vertex between two patch ids'))
+    return bad
+
+
+SMOOTH = Stream('guards_smooth', 'h_guards', 'guards', gen_smooth, oracle=oracle_smooth, kind='validate',
+                driver_args=('validate',), whitebox=WB, nontrivial=lambda op, out: out.startswith('sm'))
+
+
+# ---------------------------------------------------------------------------------------------- real split pass
+def gen_splitpass(rng, tier):
+    """validate stream: the REAL ref_split_pass on small 2-D (twod) triangulations and small tet meshes with a
+    metric that jumps by `w` between neighbouring vertices, so that the raw split weight leaves [0.05, 0.95].
+    Every call of ref_node_interpolate_edge made by the pass is recorded (weight actually passed, end points,
+    new vertex); the model recomputes the clamp and the interpolation."""
+    ops = []
+    for _ in range(N(tier, 120)):
+        if rng.random() < 0.8:
+            nx, ny = rng.randint(1, 3), rng.randint(1, 2)
+            pts, cells = [], []
+            for j in range(ny + 1):
+                for i in range(nx + 1):
+                    x, y = float(i), float(j)
+                    if 0 < i < nx and 0 < j < ny:
+                        x += rng.uniform(-0.3, 0.3)
+                        y += rng.uniform(-0.3, 0.3)
+                    pts.append([x, y, 0.0])
+            vid = lambda i, j: i + (nx + 1) * j
+            for j in range(ny):
+                for i in range(nx):
+                    a, b, c, d = vid(i, j), vid(i + 1, j), vid(i + 1, j + 1), vid(i, j + 1)
+                    if rng.random() < 0.5:
+                        cells += [['tri', a, b, c, 1], ['tri', a, c, d, 1]]
+                    else:
+                        cells += [['tri', a, b, d, 1], ['tri', b, c, d, 1]]
+            for i in range(nx):
+                cells.append(['edg', vid(i, 0), vid(i + 1, 0), 1])
+                cells.append(['edg', vid(i + 1, ny), vid(i, ny), 3])
+            for j in range(ny):
+                cells.append(['edg', vid(nx, j), vid(nx, j + 1), 2])
+                cells.append(['edg', vid(0, j + 1), vid(0, j), 4])
+            if rng.random() < 0.2:  # a quad next to it: its sides must not be split
+                k = len(pts)
+                pts += [[float(nx) + 1.0, 0.0, 0.0], [float(nx) + 1.0, 1.0, 0.0]]
+                cells.append(['qua', vid(nx, 0), k, k + 1, vid(nx, 1), 1])
+            twod = 1
+        else:
+            pts = [[0.0, 0.0, 0.0], [1.0, 0.0, 0.0], [0.0, 1.0, 0.0], [0.0, 0.0, 1.0], [1.0, 1.0, 1.0]]
+            cells = [['tet', 0, 1, 2, 3], ['tet', 1, 2, 3, 4], ['tri', 0, 2, 1, 1], ['tri', 0, 1, 3, 2], ['tri', 0, 3, 2, 3],
+                     ['tri', 1, 2, 4, 4], ['tri', 2, 3, 4, 5], ['tri', 3, 1, 4, 6]]
+            twod = 0
+        perm = list(range(len(pts)))
+        if rng.random() < 0.7:
+            rng.shuffle(perm)   # which vertices get the small / large metric
+        inv = [0] * len(pts)
+        for new, old in enumerate(perm):
+            inv[old] = new
+        pts = [pts[old] for old in perm]
+        cells = [[c[0]] + [inv[x] for x in c[1:1 + SIZES[c[0]][0]]] + c[1 + SIZES[c[0]][0]:] for c in cells]
+        w = rng.choice([1.0, 1.5, 3.0, 10.0, 30.0, 100.0, 1000.0, 1e4, rng.uniform(1, 50)])
+        h0 = rng.choice([10, 20, 30, 50, 80])
+        ops.append('vsplit x ' + fmt_op('x', [0, 1, twod, h0], w, pts, cells).split(' ', 1)[1])
+    return ops
+
+
+def oracle_splitpass(ops, impl):
+    """property stated directly on the recorded trial vertices: on the chord, between 5% and 95%, planar stays
+    planar (the lines are not aligned with the ops: one op yields several `trial` lines)"""
+    bad = []
+    for r in impl:
+        rw = r.split()
+        if rw[0] != 'trial':
+            continue
+        f = [unhx(x) for x in rw[1:]]
+        raw, w, a, b, p = f[0], f[1], f[2:5], f[5:8], f[8:11]
+        if not (0.05 <= w <= 0.95):
+            bad.append((0, 'ref_split_pass inserted with weight %r outside [0.05,0.95] (raw %r)' % (w, raw)))
+        for k in range(3):
+            ex = (1 - w) * a[k] + w * b[k]
+            if abs(p[k] - ex) > 8 * EPS * (abs(a[k]) + abs(b[k]) + 1e-300):
+                bad.append((0, 'trial vertex coordinate %d = %r is not on the chord (%r)' % (k, p[k], ex)))
+        if a[2] == 0.0 and b[2] == 0.0 and p[2] != 0.0:
+            bad.append((0, 'planar 2-D mesh left its plane: z = %r' % p[2]))
+    return bad
+
+
+SPLITPASS = Stream('guards_splitpass', 'h_guards', 'guards', gen_splitpass, oracle=oracle_splitpass, kind='validate',
+                   driver_args=('validate',), whitebox=WB, nontrivial=lambda op, out: out.startswith('trial'))
+
+
+# ---------------------------------------------------------------------------------------------- end-to-end (CLI)
+# additive to checks/cli.py / checks/oracles.py: corner and ridge positions, and a 2-D scenario with two edg ids
+# on one straight side
+import os  # noqa: E402
+
+from . import cli, oracles, pyio, meshgen  # noqa: E402
+
+
+def features3d(m):
+    """corners = vertices carrying >= 3 patch ids; ridges = edges between triangles of two different ids,
+    summarised per id pair by total length"""
+    v = m['verts']
+    vid = {}
+    edge_ids = {}
+    for s in m['cells'].get('tri', []):
+        for n in s[:3]:
+            vid.setdefault(n, set()).add(s[3])
+        for a, b in ((s[0], s[1]), (s[1], s[2]), (s[2], s[0])):
+            edge_ids.setdefault((min(a, b), max(a, b)), []).append(s[3])
+    corners = sorted(tuple(v[n][:3]) for n, ids in vid.items() if len(ids) >= 3)
+    ridges = {}
+    for (a, b), ids in edge_ids.items():
+        if len(set(ids)) == 2:
+            key = tuple(sorted(set(ids)))
+            ridges[key] = ridges.get(key, 0.0) + math.dist(v[a][:3], v[b][:3])
+    return corners, ridges
+
+
+def features2d(m):
+    """2-D: corners = vertices where two different edg ids meet"""
+    v = m['verts']
+    vid = {}
+    for s in m['cells'].get('edg', []):
+        for n in s[:2]:
+            vid.setdefault(n, set()).add(s[2])
+    return sorted(tuple(v[n][:2]) for n, ids in vid.items() if len(ids) >= 2)
+
+
+def same_points(p0, p1, tol):
+    if len(p0) != len(p1):
+        return False
+    return all(math.dist(a, b) <= tol for a, b in zip(p0, p1))
+
+
+def oracle_adapt_c02(ops, impl):
+    """cli.oracle_adapt (C01 validity + C02 volume / per-id area / bounding boxes / id set / planarity) plus the
+    positions of corners and the length of every ridge"""
+    bad = list(cli.oracle_adapt(ops, impl))
+    for i, (op, line) in enumerate(zip(ops, impl)):
+        d = cli.kv(op)
+        o = cli.parse_out(line)
+        if o.get('rc') != '0':
+            continue
+        dim = int(d.get('dim', '3'))
+        try:
+            mi = pyio.read_meshb(os.path.join(o['dir'], 'in.meshb'))
+            mo = pyio.read_meshb(os.path.join(o['dir'], 'out.meshb'))
+        except Exception:
+            continue
+        if dim == 3:
+            c0, r0 = features3d(mi)
+            c1, r1 = features3d(mo)
+            if not same_points(c0, c1, 1e-9):
+                bad.append((i, 'C02 corner positions changed: %d corners %s... -> %d corners %s...' %
+                            (len(c0), c0[:2], len(c1), c1[:2])))
+            if set(r0) != set(r1):
+                bad.append((i, 'C02 set of ridges (id pairs) changed: %s -> %s' % (sorted(r0), sorted(r1))))
+            elif float(d.get('warp', '0')) == 0:
+                for k in r0:
+                    if abs(r0[k] - r1[k]) > 1e-9 * max(r0[k], 1e-300):
+                        bad.append((i, 'C02 ridge %s length changed: %.12e -> %.12e' % (k, r0[k], r1[k])))
+        else:
+            c0, c1 = features2d(mi), features2d(mo)
+            if not same_points(c0, c1, 1e-9):
+                bad.append((i, 'C02 2-D corner positions changed: %s -> %s' % (c0, c1)))
+    return bad
+
+
+ADAPT_C02 = Stream('cli_adapt_c02', cli.cli_harness, None, cli.gen_adapt, oracle=oracle_adapt_c02, kind='oracle',
+                   nontrivial=lambda op, out: out.startswith('rc=0'), timeout=900)
+
+SITE_2D = 'ref_collapse_edge_geometry:2d-edg-ids-not-protected'
+
+
+def sc_adapt_2d_ids(ctx, d, case):
+    """unit square, nx x ny, the part x >= cut of the bottom side retagged to edg id 5: two boundary ids on one
+    straight side"""
+    n = [int(x) for x in d.get('n', '6,6').split(',')]
+    v, t, e = meshgen.square_tris(n[0], n[1], None, 0.0, (1.0, 1.0), 'sides')
+    cut = float(d.get('cut', '0.5'))
+    e2 = []
+    for a, b, i in e:
+        if v[a][1] == 0 and v[b][1] == 0 and min(v[a][0], v[b][0]) >= cut - 1e-12:
+            i = 5
+        e2.append((a, b, i))
+    mesh = os.path.join(case, 'in.meshb')
+    pyio.write_meshb(mesh, 2, v, {'tri': t, 'edg': e2}, version=2)
+    met = cli.write_metric(case, 2, v, d.get('metric', 'uniform:0.5'))
+    rc, tail = cli.run_ref(ctx, 0, ['adapt', mesh, '--metric', met, '-x', os.path.join(case, 'out.meshb'), '-s',
+                                   d.get('passes', '4')], case)
+    return 'rc=%d dir=%s' % (rc, case)
+
+
+cli.SCENARIOS['adapt2dids'] = sc_adapt_2d_ids
+
+
+def gen_adapt_2d_ids(rng, tier, np=None):
+    ops = []
+    for k in range(3 if tier == 'quick' else 10):
+        n = rng.randint(5, 9)
+        cut = rng.randint(2, n - 2) / n
+        h = rng.uniform(0.15, 0.3) if k % 3 == 0 else rng.uniform(0.7, 1.6)   # refine / coarsen
+        ops.append('adapt2dids n=%d,%d cut=%.12g metric=uniform:%.3f passes=%d' % (n, n, cut, h, rng.choice([3, 5, 8])))
+    return ops
+
+
+def oracle_adapt_2d_ids(ops, impl):
+    bad = []
+    for i, (op, line) in enumerate(zip(ops, impl)):
+        o = cli.parse_out(line)
+        if o.get('rc') != '0':
+            bad.append((i, 'adapt exited with status %s' % o.get('rc')))
+            continue
+        try:
+            mi = pyio.read_meshb(os.path.join(o['dir'], 'in.meshb'))
+            mo = pyio.read_meshb(os.path.join(o['dir'], 'out.meshb'))
+        except Exception as ex:
+            bad.append((i, 'output mesh unreadable: %r' % (ex,)))
+            continue
+        f = oracles.valid2d(mo)
+        if f:
+            bad.append((i, 'C01 output mesh invalid: ' + '; '.join(f[:3])))
+        f = oracles.same_domain(mi, mo, 2)
+        c0, c1 = features2d(mi), features2d(mo)
+        if not same_points(c0, c1, 1e-9):
+            f = list(f) + ['2-D corner positions changed: %s -> %s' % (c0, c1)]
+        if f:
+            # explained by the known defect exactly when only the two ids of the straight side (1 and 5) and the
+            # corner between them are affected: total area, the other sides and the true corners are intact
+            only_side = all(('patch 1 ' in x or 'patch 5 ' in x or 'patch id set changed' in x or '2-D corner' in x)
+                            and 'total' not in x for x in f)
+            a0, p0 = oracles.measures2d(mi)
+            a1, p1 = oracles.measures2d(mo)
+            side_len = sum(p1[k]['area'] for k in (1, 5) if k in p1)
+            intact = abs(side_len - 1.0) < 1e-9 and set(p1) - {1, 5} == set(p0) - {1, 5}
+            true_corners = [c for c in c0 if c[0] in (0.0, 1.0)]
+            kept = all(any(math.dist(c, x) < 1e-9 for x in c1) for c in true_corners)
+            if only_side and intact and kept:
+                bad.append((i, 'C02 two edg ids on one straight 2-D side: ' + '; '.join(f[:3]), SITE_2D))
+            else:
+                bad.append((i, 'C02 domain changed: ' + '; '.join(f[:3])))
+    return bad
+
+
+ADAPT_2D_IDS = Stream('cli_adapt_2d_ids', cli.cli_harness, None, gen_adapt_2d_ids, oracle=oracle_adapt_2d_ids,
+                      kind='oracle', nontrivial=lambda op, out: out.startswith('rc=0'), timeout=900, site=None)
